@@ -53,6 +53,10 @@ CHECKS = {
             "normalisation shift, decimal unit boundaries) agrees with math/big including overflow/underflow/div-by-zero "
             "reporting; every text form of every value parses back; invalid texts rejected. Exhaustive over the stated set.",
             "math/big is the reference; values outside the boundary set are not covered.", "3/C15"),
+    "C16": ("E2", "exploration",
+            "bounded exhaustive enumeration of ranges / subsets / batches / corruptions against a naive reference Merkle tree (x/crypto blake2b), on both CPU paths",
+            "Optimised roots (SumLeaf/SumPair/SumLeaves/SumNodes on every single-bit input, sector/reader/meta roots on 14 structured sector contents and every chunking) equal the naive tree on the AVX2 and generic paths; for all (start,end) over the bit-boundary set in a sector, all (n,start,end) with n<=N, all append batches and every non-empty freed subset (all permutations up to size 3) the builder's proof is accepted with the reference old/new roots, has the advertised size, and every single-element corruption (proof hash, datum, index, root, length where fixed) is rejected.",
+            "Structured sector contents, not all contents; sizes above the bounds not covered. Fixed: VerifyDiffProof/VerifyFreeSectorsProof accepted a valid proof with a wrong freed index (repo commit cc2b625).", "3/C16"),
     "C18": ("E1", "model_checking",
             "exhaustive enumeration of v2 transaction sets over every accumulator shape plus explicit-state exploration; every block round-tripped through the real multiproof/outline codecs",
             "For every accumulator size up to N and every subset of <=3 live leaves (all subsets for <=10) spread over 1-3 transactions (+ephemeral chains), and for every accepted block of a union-alphabet exploration (storage-proof chain-index elements, ephemeral parents, duplicate leaves), V2TransactionsMultiproof / V2BlockData / V2Block encode->decode restores every proof bit-for-bit with unchanged ID, commitment and validity; for every block with <=4 transactions every omitted subset x every permutation of every candidate sub-pool completes to exactly the original block or reports exactly the missing hashes; outline codec round trip.",
